@@ -20,6 +20,7 @@ def runCase (line : String) : String :=
   | some "flt" => let (m, s) := runFlt tok; s!"{m} ## {s}"
   | some "fltm" => let (m, s) := runFltm tok; s!"{m} ## {s}"
   | some "life" => let (m, s) := runLife tok; s!"{m} ## {s}"
+  | some "slife" => let (m, s) := runSlife tok; s!"{m} ## {s}"
   | some "net" => let (m, s) := runNet tok; s!"{m} ## {s}"
   | some "tls" => let (m, s) := runTls tok; s!"{m} ## {s}"
   | some "cl" =>
